@@ -27,15 +27,17 @@ RULE = ("(1) a systematic grid: every duration construct (terminate after / wait
         "in steps and seconds, 8 durations) and every condition-driven construct (terminate "
         "[simulation] when, wait until, do until, terminate, terminate simulation) in every "
         "position (top-level scenario, sub-scenario, compose block, behaviour, sub-behaviour, "
-        "monitor), each under all time steps {2,1,0.5,0.25} resp. all onset steps of the "
+        "monitor), each under all time steps {2,1,0.5,0.25,0.1,0.2} resp. all onset steps of the "
         "condition; (2) Hypothesis-generated programs of the dynamic fragment: top-level "
         "scenario (modular or plain) with setup and compose, up to 2 nested sub-scenarios "
         "invoked with do / do-for / do-until (sequential and parallel), 1-4 agents with "
         "behaviours and sub-behaviours, monitors, records, every termination construct, "
         "require, preconditions/invariants on scenarios and behaviours; each program simulated "
         "under 6 plans = (truth table of its atoms, per-step agent schedule returned as list / "
-        "tuple / one-shot iterator, maxSteps 2..8, timestep in {2,1,0.5,0.25}, "
-        "raiseGuardViolations).  A case is non-trivial when at least one judged run interleaves "
+        "tuple / one-shot iterator, maxSteps 2..8, timestep in {2,1,0.5,0.25,0.1,0.2}, "
+        "raiseGuardViolations, optionally re-simulating the scene of the previous plan, "
+        "optionally as second attempt of simulate(maxIterations=2) after a first attempt under "
+        "another table).  A case is non-trivial when at least one judged run interleaves "
         ">= 3 event kinds in one step and ends for a reason other than maxSteps (or is "
         "rejected); distinct = digest of program and plans.")
 ASSUMPTIONS = [
@@ -43,8 +45,11 @@ ASSUMPTIONS = [
     "dynamic_scenarios.rst and statements.rst; behaviours the reference leaves open are either "
     "not judged (class unjudged:*) or every reading is accepted (reading flags "
     "until_starts_first, beh_term_deferred, termwhen_before_compose, comp_inv_after_sub)",
-    "conditions are pure look-ups T(name) in a table indexed by simulation().currentTime, "
-    "durations are dyadic so that limit/timestep is exact in floating point",
+    "conditions are pure look-ups T(name) in a table indexed by simulation().currentTime; a "
+    "duration in seconds is reached at the first step whose elapsed time is >= the duration "
+    "(\"after the given amount of time\"); a duration/timestep pair is judged only when reading "
+    "the numbers as the decimals written and as the binary floats they become give the same "
+    "step (all dyadic pairs, most decimal ones; else class unjudged:duration/timestep)",
     "the order of monitors within step 3, of record statements within step 2 and of objects "
     "within step 9 is not documented: the log is compared modulo these orders; sub-scenarios "
     "of one parallel `do` are stepped in the order written",
